@@ -304,3 +304,86 @@ M('c08-twin-clear-before-return', 'C08', 'silent',
         self.recv_buffer = b\'\'
 
     def buffered_recv(self):''', 1))
+
+# ---------------------------------------------------------------- C19
+PL = 'slimta/relay/pool.py'
+DQ = 'slimta/util/deque.py'
+LC = 'slimta/relay/smtp/lmtpclient.py'
+HT = 'slimta/relay/http.py'
+M('c19-bound-ignored', 'C19', 'fire:L1',
+  (PL, '''        if not self.pool_size or len(self.pool) < self.pool_size:
+            self._add_client()''', '''        self._add_client()''', 1))
+M('c19-bound-off-by-one', 'C19', 'fire:L1',
+  (PL, '''len(self.pool) < self.pool_size:''',
+   '''len(self.pool) <= self.pool_size:''', 1))
+M('c19-idle-scan-dropped', 'C19', 'fire:L1',
+  (PL, '''        for client in self.pool:
+            if client.idle:
+                return
+''', '', 1))
+M('c19-respawn-into-nonempty-pool', 'C19', 'fire:L1',
+  (PL, '''        if len(self.queue) > 0 and not self.pool:''',
+   '''        if len(self.queue) > 0:''', 1))
+M('c19-no-respawn', 'C19', 'fire:L2',
+  (PL, '''        self.pool.remove(client)
+        if len(self.queue) > 0 and not self.pool:
+            self._add_client()''', '''        self.pool.remove(client)''', 1))
+M('c19-client-not-linked', 'C19', 'fire:L2',
+  (PL, '''        client.link(self._remove_client)
+''', '', 1))
+M('c19-http-handler-swallows', 'C19', 'fire:L3',
+  (HT, '''                    result.set_exception(TransientRelayError(msg))
+                raise''', '''                    pass
+                raise''', 1))
+M('c19-smtp-generic-arm-dropped', 'C19', 'fire:L3',
+  (RC, '''        except Exception as e:
+            if not result.ready():
+                result.set_exception(e)
+            reraise = False
+            raise
+''', '', 1))
+M('c19-smtp-sockerr-not-resolved', 'C19', 'fire:L3',
+  (RC, '''                              address=self.address).copy(connection_failed)
+                relay_error = SmtpRelayError.factory(reply)
+                result.set_exception(relay_error)''',
+   '''                              address=self.address).copy(connection_failed)
+                relay_error = SmtpRelayError.factory(reply)''', 1))
+M('c19-appendleft-no-release', 'C19', 'fire:L4',
+  (DQ, '''        ret = super(BlockingDeque, self).appendleft(*args, **kwargs)
+        self.sema.release()
+        return ret''', '''        ret = super(BlockingDeque, self).appendleft(*args, **kwargs)
+        return ret''', 1))
+M('c19-pop-after-mutation', 'C19', 'fire:L4',
+  (DQ, '''    def popleft(self, *args, **kwargs):
+        self.sema.acquire()
+        return super(BlockingDeque, self).popleft(*args, **kwargs)''',
+   '''    def popleft(self, *args, **kwargs):
+        ret = super(BlockingDeque, self).popleft(*args, **kwargs)
+        self.sema.acquire()
+        return ret''', 1))
+M('c19-remove-acquire-first', 'C19', 'fire:L4',
+  (DQ, '''        ret = super(BlockingDeque, self).remove(*args, **kwargs)
+        self.sema.acquire()
+        return ret''', '''        self.sema.acquire()
+        return super(BlockingDeque, self).remove(*args, **kwargs)''', 1))
+M('c19-insert-on-queue', 'C19', 'fire:L4',
+  (RC, '''                    self.queue.appendleft((result, envelope))''',
+   '''                    self.queue.insert(0, (result, envelope))''', 1))
+M('c19-no-rset-after-failure', 'C19', 'fire:L5',
+  (RC, '''        except SmtpRelayError as e:
+            result.set_exception(e)
+            self._rset()
+        else:''', '''        except SmtpRelayError as e:
+            result.set_exception(e)
+        else:''', 1))
+M('c19-lmtp-no-rset-on-rcpt-errors', 'C19', 'fire:L5',
+  (LC, '''        if had_errors:
+            self._rset()''', '''        pass''', 1))
+M('c19-requeue-then-continue', 'C19', 'fire:L6',
+  (RC, '''                    self.queue.appendleft((result, envelope))
+                    break''', '''                    self.queue.appendleft((result, envelope))''', 1))
+M('c19-twin-bound-early-return', 'C19', 'silent',
+  (PL, '''        if not self.pool_size or len(self.pool) < self.pool_size:
+            self._add_client()''', '''        if self.pool_size and len(self.pool) >= self.pool_size:
+            return
+        self._add_client()''', 1))
